@@ -6,14 +6,15 @@ import hashlib
 import numpy as np
 
 BASE = {'vec': np.array([2.0, -1.0, 3.0]), 'mat': np.array([[1.0, 2.0, 0.0], [0.0, -1.0, 3.0], [2.0, 0.0, 1.0]]),
-        'vec01': np.array([1.0, 0.0, 1.0])}
+        'vec01': np.array([1.0, 0.0, 1.0]),
+        'psd': np.array([[3.0, 1.0, 1.0], [1.0, 3.0, 1.0], [1.0, 1.0, 2.0]])}   # dense on purpose: not tridiagonal
 
 
 def make(kind, dtype, layout, writeable):
     """An array equal in value to BASE[kind] (cast to dtype) with the requested memory layout."""
     base = BASE[kind]
     if dtype == 'bool':
-        base = BASE['vec01'] if kind != 'mat' else (BASE['mat'] != 0).astype(float)
+        base = np.eye(3) if kind == 'psd' else (BASE['vec01'] if kind != 'mat' else (BASE['mat'] != 0).astype(float))
     if dtype in ('uint8',):
         base = np.abs(base)
     vals = base.astype(dtype if dtype != 'object' else object)
@@ -86,6 +87,10 @@ def build(front, role, arr):
         setc = box + [arr @ z <= 3]
     elif role == 'rand_coef':
         rows.append((arr @ z) @ x <= 20)
+    elif role == 'quad_matrix':
+        rows.append(rso.quad(x, arr) <= 30)
+    elif role == 'quad_set':
+        setc = box + [rso.quad(z, arr) <= 4]
     elif role == 'expt_rhs':
         pass
     elif role == 'prob_rhs':
@@ -114,7 +119,11 @@ def run_case(front, role, arr):
     steps['primal'] = sig(P)
     D = m.do_math(primal=False)
     steps['dual'] = sig(D)
-    m.solve(display=False)
+    if role in ('quad_matrix', 'quad_set'):
+        from rsome import eco_solver
+        m.solve(eco_solver, display=False)
+    else:
+        m.solve(display=False)
     steps['solved'] = None if m.solution is None else repr(round(float(m.solution.objval), 9))
     steps['primal2'] = sig(m.do_math())
     return steps
@@ -124,6 +133,8 @@ def replay(job):
     import traceback
     c = job['case']
     kind = 'mat' if c['role'] in ('matmul_left', 'matmul_right', 'set_matrix', 'rand_coef') else 'vec'
+    if c['role'] in ('quad_matrix', 'quad_set'):
+        kind = 'psd'
     if c['role'] == 'prob_rhs':
         kind = 'vec01'          # upper bounds on the two scenario probabilities: (1, 0)
     arr, plain = make(kind, c['dtype'], c['layout'], c['writeable'])
@@ -159,6 +170,8 @@ def two_process_signatures(job):
             if role in ('expt_rhs', 'prob_rhs') and front != 'dro':
                 continue
             kind = 'mat' if role in ('matmul_left', 'matmul_right', 'set_matrix', 'rand_coef') else ('vec01' if role == 'prob_rhs' else 'vec')
+            if role in ('quad_matrix', 'quad_set'):
+                kind = 'psd'
             try:
                 st = run_case(front, role, BASE[kind].copy())
                 out['%s:%s' % (front, role)] = [st['primal'], st['dual'], st['solved']]
